@@ -154,6 +154,20 @@ mod ax {
             DifficultyBasedDepth::obeys_cmp_spec(),
             #[trigger] a.cmp_spec(&b) == ord_int(a.0 as int, b.0 as int),
     {}
+
+    #[verifier::external_body]
+    pub(crate) broadcast proof fn axiom_depth_partial_ord(a: Depth, b: Depth)
+        ensures
+            Depth::obeys_partial_cmp_spec(),
+            #[trigger] a.partial_cmp_spec(&b) == Some(ord_int(a.0 as int, b.0 as int)),
+    {}
+
+    #[verifier::external_body]
+    pub(crate) broadcast proof fn axiom_dbd_partial_ord(a: DifficultyBasedDepth, b: DifficultyBasedDepth)
+        ensures
+            DifficultyBasedDepth::obeys_partial_cmp_spec(),
+            #[trigger] a.partial_cmp_spec(&b) == Some(ord_int(a.0 as int, b.0 as int)),
+    {}
 }
-broadcast use {ax::axiom_pair_ord, ax::axiom_depth_ord, ax::axiom_dbd_ord};
+broadcast use {ax::axiom_pair_ord, ax::axiom_depth_ord, ax::axiom_dbd_ord, ax::axiom_depth_partial_ord, ax::axiom_dbd_partial_ord};
 
